@@ -9,7 +9,10 @@
 #include <string.h>
 #include <unistd.h>
 
+#include <sched.h>
+
 #include <algorithm>
+#include <atomic>
 #include <deque>
 #include <unordered_map>
 
@@ -65,6 +68,9 @@ std::vector<int32_t> g_curidx;
 uint64_t g_preemptions = 0;
 uint64_t g_rng = 88172645463325252ULL;
 std::vector<uint64_t> g_pct_points;
+}  // namespace
+std::atomic<uint64_t> g_delay_seed{0};
+namespace {
 int64_t g_pct_low = -1;
 void (*g_fatal_hook)(const char *) = nullptr;
 int g_inflight = 0;
@@ -240,6 +246,20 @@ void block_on(ThState st, const void *obj) {
 
 inline bool managed() { return g_active && t_self != nullptr; }
 
+// Unmanaged mode (real concurrency, C10): seeded delay injection at the wrapped sites.
+thread_local uint64_t t_delay_state = 0;
+inline void unmanaged_delay() {
+  uint64_t seed = g_delay_seed.load(std::memory_order_relaxed);
+  if (!seed) return;
+  if (!t_delay_state) t_delay_state = seed * 0x9E3779B97F4A7C15ULL + (uint64_t)(uintptr_t)&t_delay_state;
+  t_delay_state ^= t_delay_state << 13;
+  t_delay_state ^= t_delay_state >> 7;
+  t_delay_state ^= t_delay_state << 17;
+  unsigned r = (unsigned)(t_delay_state >> 33) & 63;
+  if (r == 0) sched_yield();
+  else if (r < 4) { for (volatile int i = 0; i < (int)(r * 400); i++) {} }
+}
+
 void model_lock(const void *m) {
   Th *self = t_self;
   for (;;) {
@@ -361,7 +381,7 @@ void sched_quiesce() {
 }
 
 void sched_yield_point(const char *) {
-  if (!managed()) return;
+  if (!managed()) { unmanaged_delay(); return; }
   yield_here();
 }
 
@@ -475,14 +495,14 @@ int __wrap_pthread_mutex_destroy(pthread_mutex_t *m) {
 }
 
 int __wrap_pthread_mutex_lock(pthread_mutex_t *m) {
-  if (!managed()) return __real_pthread_mutex_lock(m);
+  if (!managed()) { unmanaged_delay(); return __real_pthread_mutex_lock(m); }
   yield_here();
   model_lock(m);
   return 0;
 }
 
 int __wrap_pthread_mutex_unlock(pthread_mutex_t *m) {
-  if (!managed()) return __real_pthread_mutex_unlock(m);
+  if (!managed()) { int rc0 = __real_pthread_mutex_unlock(m); unmanaged_delay(); return rc0; }
   model_unlock(m);
   yield_here();
   return 0;
@@ -526,7 +546,7 @@ static void wake_one(std::deque<Th *> &dq, size_t i) {
 }
 
 int __wrap_pthread_cond_signal(pthread_cond_t *c) {
-  if (!managed()) return __real_pthread_cond_signal(c);
+  if (!managed()) { unmanaged_delay(); return __real_pthread_cond_signal(c); }
   yield_here();
   auto &dq = g_conds[c];
   if (!dq.empty()) wake_one(dq, g_cfg.random_signal ? (size_t)(rnd() % dq.size()) : 0);
